@@ -157,6 +157,16 @@ prop('C07', 'model_checking',
      'three attributes from the shipped attribute maps, two values (one non-ASCII), the refeds entity-category module; anchored patterns',
      'TLA+ scenario spec + TLC + exhaustive replay', 'section 5 C07')
 
+prop('C16', 'model_checking',
+     'MdStore.tla fixes a small federation by fact sets (endpoints, keys with use, categories, requested attributes; an entity '
+     'with two roles; a duplicate declaration in a second source) and varies validity dates, signature state of the aggregate '
+     '(none/valid/invalid/wrapped), configured verification certificate and load order; Load is one action per source, the '
+     'operational lookup (first hit in load order) is checked by TLC against the declarative contract for every query of the '
+     'universe (NoExpired, SignedOnly, exact sets, UnknownSystemEntity vs UnsupportedBinding); every scenario is rendered from the '
+     'facts TLC emits (really signed / tampered / wrapped aggregates), loaded into the real MetadataStore and all ~72 queries '
+     'compared with the acceptable answers; configuration -> metadata -> store round trip for SP and IdP', TOOL_NOTE,
+     'TLA+ scenario spec + TLC + exhaustive replay', 'section 5 C16')
+
 
 def main():
     props = [json.loads(l) for l in open(os.path.join(VERIF, 'properties.jsonl'))]
